@@ -31,6 +31,7 @@ type Node struct {
 	// that request the same fresh targets to within a few hundred nanoseconds.
 	Barrier bool `json:"barrier,omitempty"`
 	Yields  int  `json:"yields,omitempty"` // scheduling points inside the body
+	Pre     int  `json:"pre,omitempty"`    // scheduling points in the body before the first dependency request (a target that asks late)
 }
 
 // Case is a graph plus a schedule.
@@ -147,6 +148,9 @@ func (t *tgt) Evaluate(engine runner.Engine) (err error) {
 	depFailed := false
 	if n.Barrier && o.c.Pol.Mode == "jitter" {
 		o.barrier()
+	}
+	for i := 0; i < n.Pre; i++ {
+		verifhook.Yield("harness.pre")
 	}
 	for _, req := range n.Reqs {
 		labels := make([]string, len(req))
@@ -381,6 +385,8 @@ func GenPolicy(t *rapid.T, jitterShare int) cosched.Policy {
 			d[i] = rapid.SampledFrom([]int{0, 1, 0, 2, 3, 1, 8, 20, 4}).Draw(t, "delay")
 		}
 		return cosched.Policy{Mode: "jitter", Delays: d}
+	case m == 9:
+		return GenPCT(t, 160)
 	case m < jitterShare+3:
 		k := rapid.IntRange(0, 3).Draw(t, "npreempt")
 		p := make([]int, k)
@@ -395,6 +401,21 @@ func GenPolicy(t *rapid.T, jitterShare int) cosched.Policy {
 	default:
 		return cosched.Policy{Mode: "random", Choices: rapid.SliceOfN(rapid.IntRange(0, 7), 4, 48).Draw(t, "choices")}
 	}
+}
+
+// GenPCT draws a priority schedule: random distinct-ish priorities per goroutine and 0-2 points (among the
+// first maxStep scheduling points) at which the running goroutine drops below all others.
+func GenPCT(t *rapid.T, maxStep int) cosched.Policy {
+	prio := make([]int, 12)
+	for i := range prio {
+		prio[i] = rapid.IntRange(1, 99).Draw(t, "prio")
+	}
+	k := rapid.SampledFrom([]int{1, 0, 2, 1}).Draw(t, "nchange")
+	ch := make([]int, k)
+	for i := range ch {
+		ch[i] = rapid.IntRange(1, maxStep).Draw(t, "change")
+	}
+	return cosched.Policy{Mode: "pct", Prio: prio, Preempt: ch, FairAge: 1000}
 }
 
 // GenDAG draws an acyclic graph (edges go from lower to higher index; root is node 0).
